@@ -112,6 +112,7 @@ class Engine:
         self.dec_labels = []
         self.finding_terms = {}
         self.bvcache = {}
+        self.unsigned_refs = []
 
     # deterministic fresh names per path position so re-execution of a prefix yields identical terms
     def fresh(self, name, sort):
@@ -127,10 +128,30 @@ class Engine:
         """value produced by a callee: references may denote pre-state objects (> 0) or objects the callee
         allocated (named with the caller's next negative ids by `fresh`), so no sign is assumed"""
         terms = [self.fresh("%s.%d" % (name, i) if i else name, s) for i, s in enumerate(sorts(ty))]
+        self.note_unsigned(ty, terms)
         return unpack(ty, terms, None)
 
-    def new_ref(self):
+    def note_unsigned(self, ty, terms):
+        i = 0
+        if ty.kind in ("ref", "list", "dict", "ext"):
+            self.unsigned_refs.append(terms[0])
+        elif ty.kind == "tuple":
+            for a in ty.args:
+                n = len(sorts(a))
+                self.note_unsigned(a, terms[i:i + n])
+                i += n
+        elif ty.kind == "opt":
+            self.note_unsigned(ty.args[0], terms[1:])
+
+    def new_ref(self, naming=None):
+        """next allocation id.  `naming`: the callee-produced reference term this id is about to name (fresh())"""
         self.alloc += 1
+        # a new object is distinct from every reference value that already exists, including values returned /
+        # written by callees (which carry no sign assumption)
+        for t in self.unsigned_refs:
+            if naming is not None and t.eq(naming):
+                continue
+            self.pc.append(t != -self.alloc)
         return -self.alloc
 
     def assume(self, b):
